@@ -105,4 +105,27 @@ P['C20'] = dict(
     mismatch_meaning='file contents, reported errors or entries read back differ from the model proved to round-trip, to be truncation-safe and to leave no partial entry: concrete entry sequence / cut offset / failing write',
 )
 
-KNOWN_MATCH = {}
+def find_bad_c19(root):
+    import subprocess, os
+    src = ('From GM Require Import Tables Enum EnumProofs Enums TableEnums.\n'
+           'Eval vm_compute in (bitmask_failures enums).\n'
+           'Eval vm_compute in (map (fun g => (ge_pkg g, ge_name g)) (filter (fun g => negb (plain_ok g)) enums)).\n')
+    p = os.path.join(root, '.work', 'findbad19.v')
+    open(p, 'w').write(src)
+    out = subprocess.run('timeout 600 coqc -Q coq GM ' + p, shell=True, cwd=root, stdout=subprocess.PIPE, stderr=subprocess.STDOUT).stdout.decode()
+    return 'bitmask enums whose zero / constants / union do not round-trip (value lists), then ordinary enums with inconsistent maps: ' + ' '.join(out.split())[:2500]
+
+P['C19'] = dict(
+    rule='every enum type of the shipped dialects with text methods (registry regenerated from the sources on every run): zero, every defined constant, for bitmask enums random combinations of the single-bit flags and the union of all flags, for ordinary enums random/boundary unnamed values over the whole uint64 range incl. 2^63-1, 2^63, 2^63+1, 2^64-1; MarshalText then UnmarshalText compared with the model (text and value); parsing of garbage, numerals, names and name combinations. Non-trivial: the round trip produced a value.',
+    assumptions=['Go maps labels_X / values_X are read from the source by go/ast and modelled as association lists'],
+    mismatch_meaning='text rendering or parsing of an enum value differs from the model proved to round-trip: concrete enum type and value',
+    find_bad=find_bad_c19,
+)
+
+def match_f12(k, case, impl, model):
+    # ardupilotmega.RALLY_FLAGS, a value containing bit 8 or bit 16 (the ALT_FRAME field): impl and
+    # model AGREE on these (the model reproduces the defect), so this matcher is only used for
+    # the KNOWN-FINDING line; nothing is suppressed by it.
+    return False
+
+KNOWN_MATCH = {'F12': match_f12}
